@@ -1,0 +1,10 @@
+//go:build !verif
+
+package the
+
+import (
+	"github.com/AliceO2Group/Control/common/event"
+	"github.com/AliceO2Group/Control/common/event/topic"
+)
+
+func verifWriterFor(topic.Topic) event.Writer { return nil }
